@@ -184,13 +184,13 @@ def main():
     except Exception:
         sf = {'internal': traceback.format_exc()[-400:]}
     cov['source_tie_functions'] = sf
-    if prop in ('C01', 'C02', 'C05', 'C08', 'C10', 'C14', 'C15', 'C20') and not replay:
+    if prop in ('C01', 'C02', 'C03', 'C04', 'C05', 'C06', 'C07', 'C08', 'C09', 'C10', 'C14', 'C15', 'C20') and not replay:
         try:
-            cov['regenerated_decoder'] = srctie2.linked_check(REPO, os.path.join(workdir, 'linked'))
-            if cov['regenerated_decoder'].get('status') != 'holds':
+            cov['regenerated_codec'] = srctie2.linked_check(REPO, os.path.join(workdir, 'linked'))
+            if cov['regenerated_codec'].get('status') != 'holds':
                 ctx.boost = max(ctx.boost, 4)
         except Exception:
-            cov['regenerated_decoder'] = {'status': 'internal: ' + traceback.format_exc()[-300:]}
+            cov['regenerated_codec'] = {'status': 'internal: ' + traceback.format_exc()[-300:]}
     cov['source_tie_note'] = ('tables/constants (source_tie) and decoder control flow (source_tie_functions) are regenerated from '
                               'the source text on every run and checked against the Model by the kernel; a tie that no longer holds '
                               'is not a violation by itself (the differential correspondence decides), it multiplies the search budget')
